@@ -383,7 +383,7 @@ func TestVerifC03(t *testing.T) {
 	if vThorough() {
 		r.Bounds["simultaneous_mutations"] = 2
 	}
-	r.Extra["rule"] = "4 maximal seeds covering every key of the workflow syntax (+ a caller linted inside a repository with a local action and a local reusable workflow) + every clean reduction of a mapping to its mandatory keys plus one pair of optional keys + every mapping rewritten with each key moved to the front and in reversed order (positions inside that mapping); every scalar value position (mapping values and sequence elements at any depth) x 5 malformed placeholders (one of them after a valid placeholder in the same string) spliced as single-quoted scalars; thorough: also every pair of scalar positions inside one mapping mutated together. class = normalised schema path of the position; non-trivial = position where an expression syntax error is required"
+	r.Extra["rule"] = "4 maximal seeds covering every key of the workflow syntax (+ a caller linted inside a repository with a local action and a local reusable workflow) + a seed of 5 spellings of a step's uses: (unknown action, local action, image, action in a subdirectory, mixed-case owner with a commit hash) x inputs named entrypoint / args in both letter cases next to an ordinary input + every clean reduction of a mapping to its mandatory keys plus one pair of optional keys + every mapping rewritten with each key moved to the front and in reversed order (positions inside that mapping); every scalar value position (mapping values and sequence elements at any depth) x 5 malformed placeholders (one of them after a valid placeholder in the same string) spliced as single-quoted scalars; thorough: also every pair of scalar positions inside one mapping mutated together. class = normalised schema path of the position; non-trivial = position where an expression syntax error is required"
 	r.Extra["assumptions"] = []string{"positions are those reachable from the seeds (one occurrence of every key of appendix C); block-style mappings only"}
 
 	if raw := vReplayInput(); raw != nil {
@@ -434,6 +434,24 @@ func TestVerifC03(t *testing.T) {
 			r.HarnessError("%v", err)
 		} else {
 			seeds = append(seeds, &c03Seed{name: "project-caller", cat: cat, lint: pl})
+		}
+	}
+	// every spelling of a step's `uses:` x the inputs named like the image overrides (entrypoint,
+	// args, in both letter cases) next to an ordinary input
+	{
+		var b strings.Builder
+		b.WriteString("on: push\njobs:\n  a:\n    runs-on: ubuntu-latest\n    steps:\n")
+		for _, u := range []string{"some-owner/docker-act@v1", "./.github/actions/my-dock", "docker://alpine:3", "some-owner/repo/sub/dir@v1", "Some-Owner/Docker-Act@0123456789abcdef0123456789abcdef01234567"} {
+			b.WriteString("      - uses: " + u + "\n        with:\n          entrypoint: /bin/sh\n          args: -c x\n          other: o\n")
+			b.WriteString("      - uses: " + u + "\n        with:\n          Args: -c x\n          other: o\n          ENTRYPOINT: /bin/sh\n")
+		}
+		src := b.String()
+		if res := vLint(src, nil); res.Err != nil || res.Panic != "" || len(res.Errs) > 0 {
+			r.HarnessError("the uses-forms seed does not lint clean: %v %v %s", vDiagStrings(res.Errs), res.Err, vTrunc(res.Panic, 200))
+		} else if cat, err := vBuildCatalogue("uses-forms", src); err != nil {
+			r.HarnessError("%v", err)
+		} else {
+			seeds = append(seeds, &c03Seed{name: "uses-forms", cat: cat})
 		}
 	}
 	var idx int64
